@@ -321,7 +321,7 @@ Definition kp_array (sz : size) (kmidv kmidf x : abw) : abw :=
       else if negb (size_lo sz =? size_hi sz)%Z
            then kp_count (size_lo sz) (size_hi sz) (size_nbits sz) kmidv x
            else kp_fixed (size_lo sz) kmidf x in
-  if size_ext sz then kseq (kprim true) (kalt (kseq (kprim false) (k_lenrep x)) normal) else normal.
+  if size_ext sz then kseq (kprim true) (kalt (kseq (kprim false) (k_frag x)) normal) else normal.
 
 Definition kp_octets (sz : size) : abw :=
   kp_array sz (kprim false) (if (size_hi sz <=? 2)%Z then kret else kprim false) (kprim true).
@@ -344,7 +344,8 @@ Proof.
   destruct (size_ext sz); [|exact Hn].
   apply Cost_bind; [apply Cost_read_bit|]. intros b. apply Cost_if; [|exact Hn].
   apply Cost_bind; [apply Cost_r_align|]. intros _.
-  apply (Cost_lenrep (kprim true) c_read_byte (fun bs => cret (VBytes bs))); [apply Cost_read_byte|intros; apply Cost_ret].
+  eapply Cost_weaken; [apply kle_seq_ret|]. apply Cost_bind; [|intros; apply Cost_ret].
+  apply Cost_read_frag_auto, Cost_read_byte.
 Qed.
 
 Definition kp_char (bpc : nat) : abw := kprim (0 <? bpc)%nat.
@@ -471,7 +472,8 @@ Section PCostComposite.
     destruct (size_ext sz); [|exact Hn].
     apply Cost_bind; [apply Cost_read_bit|]. intros b. apply Cost_if; [|exact Hn].
     apply Cost_bind; [apply Cost_r_align|]. intros _.
-    apply (Cost_lenrep (kT elem) (decT elem) (fun vs => cret (VList vs))); [apply HT|intros; apply Cost_ret].
+    eapply Cost_weaken; [apply kle_seq_ret|]. apply Cost_bind; [|intros; apply Cost_ret].
+    apply Cost_read_frag_auto, HT.
   Qed.
 
   Lemma Cost_pd_choice_root root : Cost (kp_choice_root kT root) (c_pd_choice_root decT root).
